@@ -458,28 +458,39 @@ func (f *idFeatures) Next() bool             { f.i++; return f.i < len(f.ids) }
 func (f *idFeatures) FeatureID() b6.FeatureID { return f.ids[f.i] }
 func (f *idFeatures) Feature() b6.Feature     { return nil }
 
+// the number of merged sources is a dimension of its own: the heap only gets deep with many live streams
+var mergeWidths = []int{0, 1, 2, 3, 4, 5, 6, 7, 8, 12, 16}
+
 func mergeCase(c *hx.Ctx) {
 	r := c.Rand
 	var pool []b6.FeatureID
+	dens := 1 + r.Intn(3)
 	for _, t := range types {
 		for _, ns := range []string{"nsa", "nsb", "nsc"} {
-			for _, v := range []uint64{0, 1, 2, 1 << 40} {
-				if r.Chance(1, 2) {
+			for _, v := range []uint64{0, 1, 2, 3, 7, 1 << 40, 1<<40 + 1} {
+				if r.Chance(dens, 4) {
 					pool = append(pool, fid(t, ns, v))
 				}
 			}
 		}
 	}
 	sort.Sort(b6.FeatureIDs(pool))
-	k := r.Intn(5)
+	k := mergeWidths[r.Intn(len(mergeWidths))]
 	var streams []b6.Features
 	var parts []string
+	share := 1 + r.Intn(4) // how much the sources overlap
 	for i := 0; i < k; i++ {
 		var ids []b6.FeatureID
 		for _, id := range pool {
-			if r.Chance(1, 3) {
+			if r.Chance(share, 5) {
 				ids = append(ids, id)
 			}
+		}
+		if r.Chance(1, 10) {
+			ids = nil // an empty source
+		}
+		if r.Chance(1, 10) && i > 0 {
+			ids = append([]b6.FeatureID{}, streams[i-1].(*idFeatures).ids...) // an exact duplicate of the previous source
 		}
 		streams = append(streams, &idFeatures{ids: ids, i: -1})
 		parts = append(parts, idList(ids))
@@ -531,7 +542,7 @@ func compactData(feats []ingest.Feature) ([]byte, error) {
 
 // one compact case: a single file, or 2-3 files (each closed under references; a feature present in several
 // files is identical in all of them) merged into one world
-func compactCase(em emitter, r *hx.Rand, no int) {
+func compactCase(em emitter, r *hx.Rand, no int, thorough bool) {
 	tags := make([][]b6.Tag, len(slots))
 	for i := range slots {
 		tags[i] = randTags(r, 3)
@@ -542,12 +553,19 @@ func compactCase(em emitter, r *hx.Rand, no int) {
 	nfiles := 1
 	if (no/compactEvery)%2 == 1 {
 		nfiles = 2 + r.Intn(2)
+		if thorough && r.Chance(1, 4) {
+			nfiles = 6 + r.Intn(3)
+		}
 	}
 	w := compact.NewWorld()
 	for k := 0; k < nfiles; k++ {
 		chosen := map[int]bool{}
 		for i := range slots {
-			if slots[i].id.Type != b6.FeatureTypeCollection && r.Chance(2, 1+nfiles) {
+			den := 1 + nfiles
+			if den > 4 {
+				den = 4
+			}
+			if slots[i].id.Type != b6.FeatureTypeCollection && r.Chance(2, den) {
 				chosen[i] = true
 			}
 		}
@@ -575,11 +593,12 @@ func compactCase(em emitter, r *hx.Rand, no int) {
 func compactChild(arg string) string {
 	f := strings.Fields(arg)
 	seed, _ := strconv.ParseUint(f[0], 10, 64)
+	thorough := f[1] == "thorough"
 	var sb strings.Builder
-	for _, a := range f[1:] {
+	for _, a := range f[2:] {
 		no, _ := strconv.Atoi(a)
 		fmt.Fprintf(&sb, "C\t%d\n", no)
-		ans := hx.Recover(func() string { compactCase(recorder{&sb}, caseRand(seed, no), no); return "ok" })
+		ans := hx.Recover(func() string { compactCase(recorder{&sb}, caseRand(seed, no), no, thorough); return "ok" })
 		if ans != "ok" {
 			fmt.Fprintf(&sb, "O\tworld compact\tpanic\n")
 		}
@@ -626,6 +645,8 @@ func blockNos(b int) []int {
 	return nos
 }
 
+var runTier = "quick"
+
 func startBlock(seed uint64, b int) {
 	if _, ok := compactBlocks[b]; ok {
 		return
@@ -634,7 +655,7 @@ func startBlock(seed uint64, b int) {
 	compactBlocks[b] = ch
 	go func() {
 		nos := blockNos(b)
-		args := []string{strconv.FormatUint(seed, 10)}
+		args := []string{strconv.FormatUint(seed, 10), runTier}
 		for _, no := range nos {
 			args = append(args, strconv.Itoa(no))
 		}
@@ -662,6 +683,7 @@ func startBlock(seed uint64, b int) {
 var compactDone = map[int]map[int][]string{}
 
 func compactTranscript(c *hx.Ctx) []string {
+	runTier = c.Tier
 	b := (c.CaseNo - compactAt) / compactEvery / compactBlock
 	for a := 0; a < compactAhead; a++ {
 		startBlock(c.Seed, b+a)
@@ -725,8 +747,9 @@ func oneCase(c *hx.Ctx) {
 		over, _ := basicWorld(r, c, 1, 3)
 		dumpAndQuery(c, r, "overlay", ingest.NewOverlayWorld(over, base), nq)
 	default:
-		mergeCase(c)
-		mergeCase(c)
+		for i := 0; i < 6; i++ {
+			mergeCase(c)
+		}
 	}
 }
 
@@ -813,7 +836,7 @@ func main() {
 	hx.RegisterChild("compact", compactChild)
 	hx.Main(hx.Family{
 		Name: "c03",
-		Rule: "universe of 16 features (7 points, 4 paths, 1 area, 2 relations, 2 collections; namespaces nsa/nsb/nsc; values 0..30 and 2^40+1) with 0-4 random tags from 7 searchable (#amenity #highway #a @lit @name #water #waterway; prefixes of one another) + 2 plain keys and 14 values (ASCII, non-ASCII UTF-8, U+007F / U+0080 first, one containing '=', one empty, one of 300 bytes), 1/4 of the points bare; case kinds round-robin: basic world, BasicMutableWorld after 0-11 random AddTag/RemoveTag/AddFeature edits, MutableOverlayWorld over a basic world after 0-13 edits, OverlayWorld of two basic worlds, MergeFeatures over 0-4 random sorted ID streams; every 25th case (built in child processes) a compact world from one file or merged from 2-3 files (each closed under references, shared features identical); per world 3-8 random query trees (depth <= 3) over all/empty/tagged/keyed/typed/and/or: FindFeatures ID list and (half of them) Query.Matches over every feature; non-trivial = a non-empty result of a query containing typed and (and|or) on a world with >= 4 features",
+		Rule: "universe of 16 features (7 points, 4 paths, 1 area, 2 relations, 2 collections; namespaces nsa/nsb/nsc; values 0..30 and 2^40+1) with 0-4 random tags from 7 searchable (#amenity #highway #a @lit @name #water #waterway; prefixes of one another) + 2 plain keys and 14 values (ASCII, non-ASCII UTF-8, U+007F / U+0080 first, one containing '=', one empty, one of 300 bytes), 1/4 of the points bare; case kinds round-robin: basic world, BasicMutableWorld after 0-11 random AddTag/RemoveTag/AddFeature edits, MutableOverlayWorld over a basic world after 0-13 edits, OverlayWorld of two basic worlds, MergeFeatures over k in {0,1,2,3,4,5,6,7,8,12,16} sorted ID streams drawn from up to 84 IDs with varying overlap, empty and exactly duplicated streams; every 25th case (built in child processes) a compact world from one file or merged from 2-3 files (thorough: 1 in 4 of the merged ones from 6-8 files) (each closed under references, shared features identical); per world 3-8 random query trees (depth <= 3) over all/empty/tagged/keyed/typed/and/or: FindFeatures ID list and (half of them) Query.Matches over every feature; non-trivial = a non-empty result of a query containing typed and (and|or) on a world with >= 4 features",
 		Quick:    2500,
 		Thorough: 20000,
 		Corpus:   corpus,
